@@ -481,4 +481,23 @@ Section TotalForce.
       let measured := match prev with None => false | Some _ => true end in
       tf_report lagged sub measured ft fold :: tf_trace lagged sub (Some (s, f)) (tf_end sub f fold) r
     end.
+
+  (* The same with the applied force split as the pipeline routes it: fb (ordinary biases) and fb_actual (biases with
+     bypassExtendedLagrangian, e.g. harmonicWalls - also on ordinary variables).  colvar::update_forces_energy builds
+     f = 0 + fb, then "f += fb_actual"; colvar::end_of_step saves f_old = f, i.e. AFTER fb_actual was added
+     ([late] = true).  [late] = false is the variant that saves f_old before "f += fb_actual" (seeded change C08_2). *)
+  Definition applied (fb fba : T) : T := nadd O (nadd O (n0 O) fb) fba.
+  Definition tf_end_routed (late sub : bool) (fb fba fold : T) : T :=
+    if sub then (if late then applied fb fba else nadd O (n0 O) fb) else fold.
+
+  Fixpoint tf_trace_routed (late lagged sub : bool) (prev : option (T * (T * T))) (fold : T)
+           (hist : list (T * (T * T))) : list T :=
+    match hist with
+    | [] => []
+    | (s, (fb, fba)) :: r =>
+      let ft := match prev with None => n0 O | Some (sp, (fbp, fbap)) => engine_total sp (applied fbp fbap) end in
+      let measured := match prev with None => false | Some _ => true end in
+      tf_report lagged sub measured ft fold
+        :: tf_trace_routed late lagged sub (Some (s, (fb, fba))) (tf_end_routed late sub fb fba fold) r
+    end.
 End TotalForce.
